@@ -39,6 +39,11 @@ type level struct {
 func levels() []level {
 	full := Alphabet{Signers: 2, Attrs: 2, Vals: 3, Ranks: 3, DelSigners: 2, DelRanks: 3, MaxDel: 4, MaxDepth: 3}
 	with := func(a Alphabet, f func(*Alphabet)) Alphabet { f(&a); return a }
+	// set-attribute with an empty value (clears the attribute): tag only, values {a, ""}
+	empty := with(full, func(a *Alphabet) {
+		a.Signers, a.Attrs, a.Vals, a.DelSigners, a.DelRanks, a.MaxDel, a.DenseDates = 1, 1, 2, 1, 1, 1, true
+		a.valMap = []int{0, 3}
+	})
 	if vk.Thorough() {
 		return []level{
 			{"k1-full", full, 1, true, true},
@@ -48,12 +53,16 @@ func levels() []level {
 				a.Attrs, a.Vals, a.DelSigners, a.DelRanks, a.DenseDates, a.SymSig = 1, 2, 1, 1, true, true
 				a.valMap = []int{0, 2}
 			}), 4, false, false},
+			{"k2-tag,{a,empty}/dense", empty, 2, true, true},
+			{"k3-tag,{a,empty}/dense", empty, 3, false, true},
 		}
 	}
 	return []level{
 		{"k1-full", full, 1, true, true},
 		{"k2-full/dense,a~b", with(full, func(a *Alphabet) { a.DenseDates, a.SymVal = true, true }), 2, true, true},
 		{"k3-tag,del@t1/dense,a~b,A~B", with(full, func(a *Alphabet) { a.Attrs, a.DelRanks, a.DenseDates, a.SymVal, a.SymSig = 1, 1, true, true, true }), 3, false, false},
+		{"k2-tag,{a,empty}/dense", empty, 2, true, true},
+		{"k3-tag,{a,empty}/dense", empty, 3, false, true},
 	}
 }
 
